@@ -412,7 +412,8 @@ class Result:
 
 class SimNinja:
     def __init__(self, world, bdir, sched, faults, env, step_log, trace=None,
-                 readdir_seed=None, kill_after=None, edits=None, shadow=None):
+                 readdir_seed=None, kill_after=None, edits=None, shadow=None, targets=None):
+        self.targets = list(targets or [])
         self.w = world
         self.bdir = bdir
         self.sched = dict(sched or {})
@@ -523,6 +524,23 @@ class SimNinja:
         res.n_edges = len(mf.edges)
         log = load_log(bdir)
         dirty, missing = self.compute_dirty(mf, log)
+        unwanted = set()
+        if self.targets:
+            # `ninja <targets>`: only the requested outputs and what they need
+            want = set()
+            for t in self.targets:
+                te = mf.prod.get(os.path.normpath(t))
+                if te is None:
+                    if self._mtime(t) is None:
+                        res.rc, res.error = 1, "unknown target '%s'" % t
+                        return res
+                    continue  # an existing source file as target: nothing to do
+                want |= mf.ancestors(te) | {te.idx}
+            for e in mf.edges:
+                if e.idx not in want:
+                    dirty[e.idx] = None
+                    unwanted.add(e.idx)
+            missing = [m_ for m_ in missing if mf.prod[m_[1]].idx in want]
         for e in mf.edges:
             res.reasons[e.outs[0]] = dirty[e.idx]
         if missing:
@@ -551,7 +569,7 @@ class SimNinja:
 
         # staleness diagnostics for edges judged clean
         for e in mf.edges:
-            if dirty[e.idx] is None:
+            if dirty[e.idx] is None and e.idx not in unwanted:
                 lw = w.last_write.get((real_bdir, e.outs[0]))
                 if lw is not None and not lw["ok"]:
                     # would ninja's own rules, applied to the log entry of the last SUCCESSFUL run, call this edge clean?
